@@ -188,8 +188,9 @@ class PreAggregation(BaseModel):
 
         sql = f"""SELECT
   {select_str}
-FROM {from_clause}
-GROUP BY {group_by_str}"""
+FROM {from_clause}"""
+        if group_by_positions:
+            sql += f"\nGROUP BY {group_by_str}"
 
         return sql
 
